@@ -369,7 +369,7 @@ func runC18(h *Harness) {
 				e := storeEntry(tp, ser)
 				addKey(iss, ser)
 				addKey(storeIssuers[(tp.Int(len(storeIssuers)))], ser) // same serial under another issuer
-				addKey(storeIssuers[storeTwin[ii]], ser)                // and under the most similar name
+				addKey(storeIssuers[storeTwin[ii]], ser)               // and under the most similar name
 				addKey(iss, new(big.Int).Add(ser, big.NewInt(1)))
 				apply(fmt.Sprintf("insert(%s,%s)", iss.String(), ser), func(s crlstore.CRLStore) error {
 					return s.InsertRevokedCert(&crlreader.CRLEntry{Issuer: iss, RevokedCertificate: e})
